@@ -252,4 +252,73 @@ def run(tier):
                "the line splitter is not str::lines (%s): CRLF input may leave a CR on every line" % [c for c in calls if "split" in c or "lines" in c])
     else:
         rep.unprovable("C14.line-ends", "parser::parse not found")
+    prefilters(P, g, rep)
     return rep
+
+
+def prefilters(P, g, rep):
+    """Layering: what is comment and what is quoted text is decided by the grammar alone.  Any function that sees the raw line before
+    document::line and can turn it away (a bool whose false edge skips the parser) must take the characters it judges from the grammar's
+    own code_part rule, and that rule must stop at comment() and step over string() and ch()."""
+    entry = "document::document::line"
+    nfilters = 0
+    for k in sorted(P.body):
+        if k.startswith("document::document::") or "#promoted" in k:
+            continue
+        b = P.body[k]
+        ch = MU.Chaser(b)
+        for bb, t, name, tg in P.call_sites(k):
+            if entry not in tg:
+                continue
+            text_root = ch.root(t["args"][0])[0]
+            for gbb, gt, gname, gtg in P.call_sites(k):
+                gk = [x for x in gtg if x in P.body and x != entry and not x.startswith("document::document::")]
+                if not gk or not gt["args"] or P.tys(gk[0], P.body[gk[0]]["locals"][0]["ty"]) != "bool":
+                    continue
+                if ch.root(gt["args"][0])[0] != text_root:
+                    continue
+                nfilters += 1
+                gb = P.body[gk[0]]
+                via = [tt for _, tt, _, tg2 in P.call_sites(gk[0]) if "document::document::code_part" in tg2]
+                okv = bool(via) and all(MU.Chaser(gb).root(tt["args"][0])[0] == 1 for tt in via)
+                # every character loop of the filter draws from the value code_part returned
+                loops_ok = True
+                import rules_C16 as R16
+                for head, nodes in R16.natural_loops(gb).items():
+                    for x in nodes:
+                        t2 = gb["blocks"][x]["term"]
+                        if t2["k"] == "call" and MU.callee_names(t2)[1].endswith("::next") and "Iterator" in MU.callee_names(t2)[1]:
+                            locs, consts, calls, places = MU.backward_slice(gb, t2["args"][:1])
+                            if not any("code_part" in MU.callee_names(c)[1] for c in calls):
+                                loops_ok = False
+                rep.ob("C14.prefilter|%s" % gk[0], okv and loops_ok,
+                       "%s, which can turn a line away before the grammar sees it, judges only the characters document::code_part hands it (comments and quoted text excluded by the grammar's own rules)" % gk[0].split("::")[-1]
+                       if okv and loops_ok else
+                       "%s can turn a line away before the grammar sees it and does not take the characters it judges from document::code_part: text inside comments or strings may decide whether a line assembles" % gk[0])
+    rep.count("pre-grammar filters", nfilters)
+    r = g.rules.get("code_part")
+    if nfilters and r is None:
+        rep.unprovable("C14.prefilter|code_part-grammar", "grammar rule code_part not found")
+    elif r is not None:
+        node = top_seq(r["expr"])
+        body = node[1][0][1] if node[0] == "seq" and node[1] else None
+        ok = body is not None and body[0] == "rep"
+        why = ""
+        if ok:
+            names = []
+            for a in alts(body[1]):
+                a = top_seq(a)
+                els = [top_seq(e) for _, e in a[1]] if a[0] == "seq" else [a]
+                if len(els) == 1 and els[0][0] == "call":
+                    names.append(els[0][1])
+                    continue
+                inner = top_seq(els[0][1]) if len(els) == 1 and els[0][0] == "slice" else (a if a[0] == "seq" else None)
+                ie = [top_seq(e) for _, e in inner[1]] if inner is not None and inner[0] == "seq" else []
+                if len(ie) == 2 and ie[0][0] == "not" and is_call(top_seq(ie[0][1]), "comment") and ie[1][0] == "class" and ie[1][3]:
+                    names.append("<any-but-comment>")
+                else:
+                    names.append("<other>")
+            ok = sorted(names[:-1]) == ["ch", "string"] and names[-1:] == ["<any-but-comment>"]
+            why = str(names)
+        rep.ob("C14.prefilter|code_part-grammar", ok, "code_part steps over string() and ch() whole and stops in front of comment()" if ok else
+               "code_part does not have the shape (string() / ch() / !comment() [_])* : %s" % why)
